@@ -7,19 +7,161 @@ package c06
 // others spread over local store and backend) and ActionResults with
 // everything present are queried many times from many goroutines: every
 // answer to the former must be a miss, to the latter a hit.
+//
+// The "ordered" subjects additionally fix the order in which the backend's
+// answers arrive (lib.ProxyPlan.Delay on the harness's own backend, no wall
+// clock in the oracle): every referenced blob is held by the backend only, so
+// that all batches of 20 are in flight at once, and either the one miss
+// arrives first (while the present blobs' answers are still outstanding and
+// later batches are still being queued) or it arrives last (after every other
+// probe finished).
 
 import (
 	"fmt"
+	"math/rand/v2"
 	"sync"
+	"time"
 
 	"verif/harness/lib"
+
+	"github.com/buchgr/bazel-remote/v2/cache"
 )
+
+type subject struct {
+	in      *instance
+	ci      *caseInfo
+	expHit  bool
+	missing []absentee
+	counts  map[string]int
+	order   string // "" | miss-first | miss-last | all-present-delayed
+}
+
+// prepare builds one subject: instance of sh, placed according to p, blobs
+// and ActionResult stored. allBackend puts every present blob into the backend only.
+func (w *world) prepare(sh *shape, p plan, tag string, upload string, rng *rand.Rand, allBackend bool) *subject {
+	r := w.r
+	in := build(sh, tag, rng, -1, nil)
+	pl := place(in, p, true, 0, rng)
+	if allBackend {
+		for h, v := range pl {
+			if v != plAbsent {
+				pl[h] = plBackend
+			}
+		}
+	}
+	ci := &caseInfo{ID: tag, Cfg: w.cfg, Shape: sh.label, Plan: "concurrent-" + p.name, Target: p.label, Key: in.key, Refs: in.refs, Upload: upload, Blobs: "batch"}
+	var local [][]byte
+	seen := map[string]bool{}
+	for _, x := range in.refs {
+		if x.Empty || seen[x.Hash] {
+			continue
+		}
+		seen[x.Hash] = true
+		v := pl[x.Hash]
+		ci.PlacedAs = append(ci.PlacedAs, fmt.Sprintf("%s %s(%d bytes): %s", x.Where, x.Hash[:12], x.Size, plName(v)))
+		if v == plLocal || v == plBoth {
+			local = append(local, x.content)
+		}
+		if v == plBackend || v == plBoth {
+			w.putBackend(x.Hash, x.content)
+		}
+	}
+	if e := w.uploadLocal(local, "batch"); e != "" {
+		r.Inconclusive("blob upload refused in " + tag + ": " + e)
+		return nil
+	}
+	if e := w.uploadAR(in, ci.Upload); e != "" {
+		r.Inconclusive("ActionResult upload refused in " + tag + ": " + e)
+		return nil
+	}
+	return &subject{in: in, ci: ci, counts: map[string]int{}}
+}
+
+// hammer queries the subjects from G goroutines, perG queries each, over all
+// three query paths (gRPC with rotating inline requests when inline is set).
+func (w *world) hammer(subs []*subject, G, perG int, inline bool) {
+	var mu sync.Mutex
+	var wg sync.WaitGroup
+	for g := 0; g < G; g++ {
+		wg.Add(1)
+		go func(g int) {
+			defer wg.Done()
+			for k := 0; k < perG; k++ {
+				sub := subs[(g+k)%len(subs)]
+				q := queryPaths[(g/2+k)%3]
+				inl := inlineReq{}
+				if inline {
+					inl = inlineVariant((g + k) / 3)
+				}
+				o := w.query(sub.in, q, false, inl)
+				mu.Lock()
+				sub.counts[q+"."+o.Kind]++
+				sub.counts[o.Kind]++
+				if o.Kind != "hit" && o.Kind != "miss" {
+					sub.counts["detail:"+o.Detail]++
+				}
+				mu.Unlock()
+			}
+		}(g)
+	}
+	wg.Wait()
+}
+
+func (w *world) evaluate(subs []*subject, howMany string) {
+	r := w.r
+	for _, sub := range subs {
+		total := sub.counts["hit"] + sub.counts["miss"] + sub.counts["error"]
+		if sub.counts["timeout"] > 0 {
+			r.Inconclusive("transport trouble / watchdog in concurrent part, case " + sub.ci.ID)
+		}
+		r.EvalN(total)
+		exp := "miss"
+		if sub.expHit {
+			exp = "hit"
+		}
+		pre := "concurrent."
+		if sub.order != "" {
+			pre = "concurrent.ordered." + sub.order + "."
+		}
+		for _, k := range []string{"hit", "miss", "error"} {
+			r.CountN(pre+"expected-"+exp+"."+k, int64(sub.counts[k]))
+		}
+		r.Distinct(w.cfg, "concurrent", sub.ci.Plan, sub.ci.Shape, exp, sub.order)
+		d := func() map[string]any {
+			m := sub.ci.detail(sub.in, howMany, outcome{}, sub.missing)
+			m["answers"] = sub.counts
+			if sub.order != "" {
+				m["backend_answer_order"] = sub.order
+			}
+			return m
+		}
+		switch {
+		case !sub.expHit && sub.counts["hit"] == total && total > 0:
+			r.Violation("C06:hit-with-missing-blob:absent@"+sub.missing[0].Class+":backend", "every one of the concurrent queries answered a hit although a referenced blob is absent", d())
+		case !sub.expHit && sub.counts["hit"] > 0:
+			r.Violation("C06:hit-with-missing-blob:intermittent:backend",
+				fmt.Sprintf("%d of %d concurrent queries answered a hit while the referenced %s %s (%s) is present neither locally nor in the backend; all other answers were misses",
+					sub.counts["hit"], total, sub.missing[0].Class, sub.missing[0].Where, sub.missing[0].Hash[:12]), d())
+		case sub.expHit && sub.counts["miss"] > 0:
+			// one-directional statement: recorded, not judged
+			r.CountN("converse.miss-with-all-present.concurrent", int64(sub.counts["miss"]))
+		}
+		if sub.counts["error"] > 0 {
+			if sub.expHit {
+				r.CountN("converse.error-with-all-present.concurrent", int64(sub.counts["error"]))
+			} else {
+				r.Violation("C06:error-on-absence:concurrent:backend", fmt.Sprintf("%d of %d concurrent queries failed with an error (expected: %s)", sub.counts["error"], total, exp), d())
+			}
+		}
+	}
+}
 
 func runConcurrent(r *lib.Run) {
 	nAR := r.N(6, 16)
 	perG := r.N(120, 400)
 	const G = 16
 	rng := r.Rng("concurrent")
+	orng := r.Rng("concurrent-ordered")
 	for _, storage := range []string{"uncompressed", "zstd"} {
 		w, err := newWorld(r, storage, "go", true, 8<<30, "")
 		if err != nil {
@@ -33,46 +175,14 @@ func runConcurrent(r *lib.Run) {
 			if len(ts) == 0 {
 				continue
 			}
-			type subject struct {
-				in      *instance
-				ci      *caseInfo
-				expHit  bool
-				missing []absentee
-				counts  map[string]int
-			}
 			var subs []*subject
 			for k, pn := range []string{"mixed-one-missing", "mixed-present"} {
 				p := ts[rng.IntN(len(ts))]
 				p.name = pn
 				tag := fmt.Sprintf("C06-s%d-c-%s-%d-%d", r.Seed, storage, s, k)
-				in := build(sh, tag, rng, -1, nil)
-				pl := place(in, p, true, 0, rng)
-				ci := &caseInfo{ID: tag, Cfg: w.cfg, Shape: sh.label, Plan: "concurrent-" + pn, Target: p.label, Key: in.key, Refs: in.refs, Upload: uploadPaths[(s+k)%3], Blobs: "batch"}
-				var local [][]byte
-				seen := map[string]bool{}
-				for _, x := range in.refs {
-					if x.Empty || seen[x.Hash] {
-						continue
-					}
-					seen[x.Hash] = true
-					v := pl[x.Hash]
-					ci.PlacedAs = append(ci.PlacedAs, fmt.Sprintf("%s %s(%d bytes): %s", x.Where, x.Hash[:12], x.Size, plName(v)))
-					if v == plLocal || v == plBoth {
-						local = append(local, x.content)
-					}
-					if v == plBackend || v == plBoth {
-						w.putBackend(x.Hash, x.content)
-					}
+				if sub := w.prepare(sh, p, tag, uploadPaths[(s+k)%3], rng, false); sub != nil {
+					subs = append(subs, sub)
 				}
-				if e := w.uploadLocal(local, "batch"); e != "" {
-					r.Inconclusive("blob upload refused in " + tag + ": " + e)
-					continue
-				}
-				if e := w.uploadAR(in, ci.Upload); e != "" {
-					r.Inconclusive("ActionResult upload refused in " + tag + ": " + e)
-					continue
-				}
-				subs = append(subs, &subject{in: in, ci: ci, counts: map[string]int{}})
 			}
 			if len(subs) == 0 {
 				continue
@@ -80,66 +190,77 @@ func runConcurrent(r *lib.Run) {
 			for _, sub := range subs {
 				sub.expHit, sub.missing = w.expectation(sub.in)
 			}
-			var mu sync.Mutex
-			var wg sync.WaitGroup
-			for g := 0; g < G; g++ {
-				wg.Add(1)
-				go func(g int) {
-					defer wg.Done()
-					for k := 0; k < perG; k++ {
-						sub := subs[(g+k)%len(subs)]
-						q := queryPaths[(g/2+k)%3]
-						o := w.query(sub.in, q, false)
-						mu.Lock()
-						sub.counts[q+"."+o.Kind]++
-						sub.counts[o.Kind]++
-						if o.Kind != "hit" && o.Kind != "miss" {
-							sub.counts["detail:"+o.Detail]++
-						}
-						mu.Unlock()
-					}
-				}(g)
+			w.hammer(subs, G, perG, true)
+			w.evaluate(subs, "16 goroutines, all three query paths")
+		}
+		w.runOrdered(orng, storage, r.N(4, 12))
+		w.close()
+	}
+}
+
+// runOrdered: see the file comment. n shapes per world, three subjects each.
+func (w *world) runOrdered(rng *rand.Rand, storage string, n int) {
+	r := w.r
+	const delay = 3 * time.Millisecond
+	for s := 0; s < n; s++ {
+		// 41, 45 or 60 output files without inline contents: at least three batches of 20
+		sh := genShape(rng, 11+s%3)
+		for i := range sh.files {
+			sh.files[i].inline = false
+		}
+		probe := build(sh, "probe", rng, -1, nil)
+		ts := targets(probe, rng)
+		if len(ts) == 0 {
+			continue
+		}
+		var subs []*subject
+		for k, order := range []string{"miss-first", "miss-last", "all-present-delayed"} {
+			// the absent reference: a structural position (first, around the batch edges, last, tree files, stdout/stderr)
+			p := ts[(s+k*3)%len(ts)]
+			p.name = "mixed-one-missing"
+			if order == "all-present-delayed" {
+				p.name = "mixed-present"
 			}
-			wg.Wait()
-			for _, sub := range subs {
-				total := sub.counts["hit"] + sub.counts["miss"] + sub.counts["error"]
-				if sub.counts["timeout"] > 0 {
-					r.Inconclusive("watchdog in concurrent part, case " + sub.ci.ID)
-				}
-				r.EvalN(total)
-				exp := "miss"
-				if sub.expHit {
-					exp = "hit"
-				}
-				for _, k := range []string{"hit", "miss", "error"} {
-					r.CountN("concurrent.expected-"+exp+"."+k, int64(sub.counts[k]))
-				}
-				r.Distinct(w.cfg, "concurrent", sub.ci.Plan, sub.ci.Shape, exp)
-				d := func() map[string]any {
-					m := sub.ci.detail(sub.in, "16 goroutines, all three query paths", outcome{}, sub.missing)
-					m["answers"] = sub.counts
-					return m
+			tag := fmt.Sprintf("C06-s%d-o-%s-%d-%s", r.Seed, storage, s, order)
+			sub := w.prepare(sh, p, tag, uploadPaths[(s+k)%3], rng, true)
+			if sub == nil {
+				continue
+			}
+			sub.order = order
+			sub.ci.Plan = "concurrent-ordered-" + order
+			absent := ""
+			if p.name == "mixed-one-missing" {
+				absent = sub.in.refs[p.target].Hash
+			}
+			for _, x := range sub.in.refs {
+				if x.Empty || x.Class == clsTreeBlob {
+					continue
 				}
 				switch {
-				case !sub.expHit && sub.counts["hit"] == total && total > 0:
-					r.Violation("C06:hit-with-missing-blob:absent@"+sub.missing[0].Class+":backend", "every one of the concurrent queries answered a hit although a referenced blob is absent", d())
-				case !sub.expHit && sub.counts["hit"] > 0:
-					r.Violation("C06:hit-with-missing-blob:intermittent:backend",
-						fmt.Sprintf("%d of %d concurrent queries answered a hit while the referenced %s %s (%s) is present neither locally nor in the backend; all other answers were misses",
-							sub.counts["hit"], total, sub.missing[0].Class, sub.missing[0].Where, sub.missing[0].Hash[:12]), d())
-				case sub.expHit && sub.counts["miss"] > 0:
-					r.Violation("C06:miss-with-all-present:concurrent:backend",
-						fmt.Sprintf("%d of %d concurrent queries answered a miss although every referenced blob is present with the stated size", sub.counts["miss"], total), d())
-				}
-				if sub.counts["error"] > 0 {
-					key := "C06:error-on-absence:concurrent:backend"
-					if sub.expHit {
-						key = "C06:error-with-all-present:concurrent:backend"
-					}
-					r.Violation(key, fmt.Sprintf("%d of %d concurrent queries failed with an error (expected: %s)", sub.counts["error"], total, exp), d())
+				case order == "miss-last" && x.Hash == absent:
+					// the miss is the slowest answer: it arrives when every other probe has finished
+					w.fp.SetPlan(cache.CAS, x.Hash, lib.ProxyPlan{Delay: 2 * delay})
+				case order == "miss-first" && x.Hash != absent:
+					// every present blob answers late: the miss arrives while they are outstanding
+					w.fp.SetPlan(cache.CAS, x.Hash, lib.ProxyPlan{Delay: delay})
+				case order == "all-present-delayed" && rng.IntN(3) == 0:
+					w.fp.SetPlan(cache.CAS, x.Hash, lib.ProxyPlan{Delay: delay})
 				}
 			}
+			sub.expHit, sub.missing = w.expectation(sub.in)
+			subs = append(subs, sub)
+			r.Count("concurrent.ordered.subject." + order + "." + sub.in.refs[p.target].Class)
 		}
-		w.close()
+		if len(subs) == 0 {
+			continue
+		}
+		// plain lookups: inlining would fetch the backend-only blobs into the local store and end the all-in-flight situation
+		w.hammer(subs, 6, r.N(12, 40), false)
+		w.evaluate(subs, "6 goroutines, all three query paths, scripted backend answer order")
+		for _, sub := range subs {
+			for _, x := range sub.in.refs {
+				w.fp.ClearPlan(cache.CAS, x.Hash)
+			}
+		}
 	}
 }
